@@ -402,6 +402,7 @@ def prop_C14(run):
     import rules_mpt
     rules_mpt.inclusion(run)
     rules_mpt.body_file_rule(run)
+    rules_mpt.include_parses_every_time(run)
     import rules_cond
     rules_cond.nested_include_rule(run)
     n = lim2_obligations(run, only=lambda key, f: "eval_builtin_inc" in key or "file_navigation" in key)
